@@ -26,6 +26,11 @@ var fmtTemplates = []string{
 	"x = [1, [2, 3], \"s\", /r/, true]\n", "x = [\n", "x = /* v */ // c\n", "/* m\n\nl */ x = 1 // t\n\n\n\ny = 2", "\t\n \nx=1\n\t\n",
 	"a {\n\t| " + strings.Repeat("word ", 30) + "\n}\n", "a {\n b {\n  c {\n   | " + strings.Repeat("xy ", 40) + "\n  }\n }\n}\n",
 	"| a\n|\n|\n| b\n|\n", "| tab\tsep nbsp\n", "x = \"\xff\"\n", "x += 1 //\n", "}\n}\n", "a {\n", "x = | d\n", "x = // c\n",
+	// strings whose only escape is an escaped newline; over-long words in the middle of a paragraph
+	"x = \"only\\\nnewline\"\n", "k v \"l1\\\nl2\\\nl3\" {\n}\n", "x = [\"a\\\nb\", \"c\"]\n",
+	"| aa bb " + strings.Repeat("L", 90) + " cc dd\n",
+	"a {\n\t| one two " + strings.Repeat("M", 85) + " three\n\t| four " + strings.Repeat("N", 120) + "\n}\n",
+	"| " + strings.Repeat("w ", 30) + strings.Repeat("X", 81) + " tail words here\n| next line " + strings.Repeat("Y", 100) + " end\n",
 }
 
 func fmtInputs(cfg *vh.Config, label string, nGen, nCorpus, nSeq int) []fmtInput {
@@ -203,6 +208,14 @@ func editsTerm(es []bcl.FmtDiff) string {
 	items := make([]string, len(es))
 	for i, e := range es {
 		items[i] = fmt.Sprintf("(%s,%s,%s)", zlit(e.FromLine), zlit(e.ToLine), vh.BytesTerm(e.NewText))
+	}
+	return listTerm(items)
+}
+
+func lspTerm(es []bcl.LspEdit) string {
+	items := make([]string, len(es))
+	for i, e := range es {
+		items[i] = fmt.Sprintf("(%s,%s,%s,%s,%s)", zlit(int(e.StartLine)), zlit(int(e.StartChar)), zlit(int(e.EndLine)), zlit(int(e.EndChar)), vh.BytesTerm(e.NewText))
 	}
 	return listTerm(items)
 }
